@@ -12,7 +12,7 @@ Kernels covered deductively here:
   power_spectrum factorial, n_choose_k, P_n, bin_kmu, bin_kppi (C08), linear_interp, expand_poles_to_3d, get_smoothing,
   get_delta_mu2, shift_field_fft, normalize_field (in-place), _normalize | GRAND_HOD.fast_concatenate, wrap (C09),
   abacus_hod._searchsorted_parallel (C12) | menv.msum_core.
-GRAND_HOD.gen_cent / gen_sats: bounds and prange obligations of the functional contracts in contracts/hodk.py (box observer; the light-cone branch: bounded replay only, see C09/C10).
+GRAND_HOD.gen_cent / gen_sats: bounds and prange obligations of the functional contracts in contracts/hodk.py (box and light-cone observer).
 Not covered at all: getPointsOnSphere, compute_fast_NFW, gen_sats_nfw, _compute_ngal_*, tpcf_corrfunc, shear, zcv/*, prepare_sim.
 """
 import itertools
@@ -216,12 +216,12 @@ def check(run):
     run.add_bounded('boundary inputs through the bounds-checked / interpreted kernels', 12, 12,
                     'linear_interp at/below/above the abscissa range, msum_core, _wrap_inplace, _zeros_parallel (others: see the bounded parts of C04, C06, C08, C15, C17, C19)',
                     [dict(kernel='linear_interp', xd=3.0, x=[0, 1, 2, 3])])
-    run.notes.append('gen_cent / gen_sats (box observer) are under the functional contracts of contracts/hodk.py, whose bounds / prange obligations are discharged here; the light-cone branch: bounded replay of C09/C10 only')
+    run.notes.append('gen_cent / gen_sats (box and light-cone observer) are under the functional contracts of contracts/hodk.py, whose bounds / prange obligations are discharged here')
     run.assumptions += ['documented preconditions as transcribed in each contract (positions in [0, BoxSize], uniform interpolation grid, well-formed catalogue offsets, '
                         'neighbour indices inside the mass table, leading pack9 header, poles <= 10)',
                         'complex values abstracted to uninterpreted reals; transcendental functions uninterpreted; reshape(-1) modelled as a 1-D array of prod(shape) elements',
                         'functional invariants that the bounds proofs rely on (e.g. the counting argument of partition_parallel) are re-proved here from the same sidecars',
-                        'NOT covered: gen_cent / gen_sats with a light-cone origin (bounded only), getPointsOnSphere, compute_fast_NFW, gen_sats_nfw, _compute_ngal_*, tpcf_corrfunc, shear, zcv/*, prepare_sim']
+                        'NOT covered: getPointsOnSphere, compute_fast_NFW, gen_sats_nfw, _compute_ngal_*, tpcf_corrfunc, shear, zcv/*, prepare_sim']
 
 
 def replay_file(rec, repo):
